@@ -29,8 +29,9 @@ def run_task(task):
         init = driver.pycfunction_init
         cfg = {}
         if mode == 'lapack-wrapper':
-            from contracts.c import blas_spec
+            from contracts.c import blas_spec, lapack_spec
             ext.update(blas_spec.LOCAL_EXTERNS)
+            post = lapack_spec.post
         elif mode == 'blas-wrapper':
             from contracts.c import blas_spec
             ext.update(blas_spec.LOCAL_EXTERNS)
